@@ -26,7 +26,7 @@ var invalidDecls = []Decl{
 var invalidRules = []string{
 	"@foo bar;", "@foo { p { display: none } }", "@unknown x y z { a: b }", "div:::bad { display: none }", "p:nth-child(x) { display: none }",
 	":foo(bar) { display: none }", "p..c1 { display: none }", "> p { display: none }", "p, { display: none }", "@page :nope { size: 10px }",
-	"@media { }", "@counter-style { system: cyclic }", "@font-face { }", "@page { @top-nowhere { content: 'x' } }", "div[ { display: none }",
+	"@media { }", "@counter-style { system: cyclic }", "@font-face { }", "@page { @top-nowhere { content: 'x' } }", "div[] { display: none }",
 	"p:not() { display: none }", "@namespace ;", "@keyframes k { from { width: 0 } }", "#1a { display:none }", "@import;",
 	"@counter-style decimal { system: cyclic; symbols: 'x' }", "@counter-style csbad { system: additive; symbols: 'x' }",
 }
